@@ -70,7 +70,9 @@ func Mnemonic(entropy []byte, passcode string) (mnemonic string, seed []byte, e 
 	}
 	cs := ent / 32
 	ms := ent + cs
-	entropy = append(entropy, sha256.Sum256(entropy)[0])
+	// work on a copy: appending to the argument could write the checksum byte
+	// into the caller's backing array
+	entropy = append(append(make([]byte, 0, len(entropy)+1), entropy...), sha256.Sum256(entropy)[0])
 	sb := strings.Builder{}
 	sb.Grow(ms)
 	for _, b := range entropy {
